@@ -160,6 +160,15 @@ func enumSmall() []*Prog {
 					tableFn(p, "F", pkgA, 1, mkRes(tf), bodies[0])
 					tableFn(p, "G", pkgA, 1, mkRes(tg), bodies[1])
 					p.Funcs = append(p.Funcs, lits...)
+					// the two declarations in one file, and in two files in both orders
+					switch len(out) % 4 {
+					case 1:
+						p.Funcs[gi].File = 1
+					case 2:
+						p.Funcs[fi].File = 3
+					case 3:
+						p.Funcs[fi].File, p.Funcs[gi].File = 1, 2
+					}
 					p.Calls = callsOf(p)
 					out = append(out, p)
 				}
